@@ -216,7 +216,7 @@ def validate_random_runs(mol: Mol, g, seeds, tag="rand", parse_text=None):
 # --------------------------------------------------------------------------------------------
 # model checking of an instance (design level)
 # --------------------------------------------------------------------------------------------
-def model_check(mol: Mol, targets, invariants, liveness=True, tag="mc", workers=2, timeout=600, expect_error=False):
+def model_check(mol: Mol, targets, invariants, liveness=True, tag="mc", workers=2, timeout=600, expect_error=False, simulate=None):
     """targets: {element index (1-based): [mDa,...]}. Returns dict(ok, states, distinct, violated, outcomes)."""
     with common.Scratch(tag) as d:
         n = len(mol.elems)
@@ -230,7 +230,14 @@ def model_check(mol: Mol, targets, invariants, liveness=True, tag="mc", workers=
             f.write("PROPERTY AttachSound\n")
             if liveness:
                 f.write("PROPERTY Termination\n")
-        r = run_tlc(d, "MC", cfg=cfg, workers=workers, timeout=timeout, xmx="3g", coverage=True)
+        extra = ["-simulate", f"num={simulate[0]}", "-depth", str(simulate[1])] if simulate else []
+        r = run_tlc(d, "MC", cfg=cfg, workers=workers, timeout=timeout, xmx="3g", coverage=not simulate, extra=extra)
+        if simulate:
+            # simulation mode ends by reaching the number of behaviours: "ok" = no violation reported
+            r.ok = r.invariant_violated() is None and "Error:" not in r.out
+            import re as _re
+            m_ = _re.search(r"(\d+) states checked", r.out)
+            r.distinct = r.generated = int(m_.group(1)) if m_ else 0
     out = {"ok": r.ok, "states": r.generated, "distinct": r.distinct, "violated": r.invariant_violated(), "depth": r.depth,
            "wall": r.wall, "coverage": {k: v for k, v in r.coverage().items()
                                         if k in ("StartEnd", "HandOver", "PickOpen", "PickPartner", "PickListed", "Reserve",
